@@ -102,8 +102,15 @@ class Tracer:
         self.lines = {k: i for i, k in enumerate(lines)}
         self.calls = {c: i for i, c in enumerate(calls)}
         self.budget = budget
+        self.stuck = 0
+
+    MAX_STUCK = 3     # a decoder that did not finish on that many inputs is not called any more (each such
+                      # call burns the whole event budget); what was found is reported
 
     def run(self, fn):
+        if self.stuck >= self.MAX_STUCK:
+            return {"status": "skipped", "value": None, "events": 0, "hits": [0] * len(self.lines),
+                    "calls": [0] * len(self.calls)}
         events = [0]
         hits = [0] * len(self.lines)
         ncalls = [0] * len(self.calls)
@@ -150,6 +157,8 @@ class Tracer:
         out["events"] = events[0]
         out["hits"] = hits
         out["calls"] = ncalls
+        if not ordinary(out["status"]):
+            self.stuck += 1
         return out
 
 
@@ -204,6 +213,8 @@ class Decoders:
         self.t_server = T([while_line(http.BasicHttpServer.data_received)])
         self.t_var = T()
         self.t_plain = T()
+        self.t_opack = T()
+        self.t_flags = T()
         # `_parse` closures: located by name + file at call time
         self.t_tlv = None
         # lookup_tag walks the whole tag table per frame (~130 line events); up to recursion-limit frames
@@ -228,8 +239,11 @@ class Decoders:
         return "%s %d" % (dns_class(r), cost), r, cost
 
     # -- small codecs --------------------------------------------------------------------------
+    tlv_stuck = 0
+
     def tlv(self, data):
-        tr = Tracer(self.prefix)
+        if self.tlv_stuck >= Tracer.MAX_STUCK:
+            return "skipped", {"status": "skipped", "events": 0}, 0
         frames = [0]
         prefix = self.prefix
         tlv_file = self.tlv8.__file__
@@ -270,6 +284,8 @@ class Decoders:
         except BaseException as e:  # noqa
             r["status"] = "FATAL:" + type(e).__name__
         r["events"] = events[0]
+        if not ordinary(r["status"]):
+            self.tlv_stuck += 1
         return "%s %d" % (r["status"], frames[0]), r, frames[0]
 
     def var(self, data):
@@ -281,7 +297,7 @@ class Decoders:
         return ("err %d" % len(data)) if r["status"] == "err:ValueError" else r["status"], r, len(data)
 
     def opack_(self, data):
-        r = self.t_plain.run(lambda: self.opack.unpack(data))
+        r = self.t_opack.run(lambda: self.opack.unpack(data))
         return r["status"], r, len(data)
 
     def dmap(self, data, lookup):
@@ -393,7 +409,7 @@ class Decoders:
     # -- flags ---------------------------------------------------------------------------------
     def flags(self, text):
         from pyatv.protocols.airplay import utils
-        r = self.t_plain.run(lambda: utils._get_flags({"flags": text}))
+        r = self.t_flags.run(lambda: utils._get_flags({"flags": text}))
         if r["status"] == "ok":
             return "ok %s%d" % ("-" if r["value"] < 0 else "+", abs(r["value"])), r, len(text)
         return "err" if r["status"] == "err:ValueError" else r["status"], r, len(text)
@@ -418,6 +434,9 @@ class Bench:
         self.calib = {}         # decoder -> (c, c0)
 
     def add(self, dec, case, line, impl, res, iters, valid=False):
+        if res["status"] == "skipped":
+            self.ctx.note("skipped-after-hangs:" + dec)
+            return
         self.rows.setdefault(dec, []).append((case, line, impl, res, iters, valid))
 
     def finish(self, strip=None):
@@ -641,6 +660,8 @@ def run_opack(ctx, D, bench):
     answers = ctx.lean(["unpack " + hx(w) for w in rows], driver="Driver/C04Opack.lean")
     for w, ans in zip(rows, answers):
         impl, r, it = D.opack_(w)
+        if r["status"] == "skipped":
+            continue
         deep = len(w) > 150 and w[:100] == b"\xD1" * 100
         bench.add("opack", hx(w), None, impl, r, it, valid=w in valids)
         model = ans.split(" ")[0]
@@ -703,6 +724,8 @@ def run_dmap(ctx, D, bench):
     for b, ans in zip(bufs, answers[1:]):
         impl, r, it = D.dmap(b, lookup)
         bench.add("dmap", hx(b), None, impl, r, it, valid=b in valids)
+        if r["status"] == "skipped":
+            continue
         parts = ans.split(" ")
         mstatus, mframes, declok = parts[0], int(parts[1]), parts[2] == "1"
         st = r["status"]
@@ -818,6 +841,8 @@ def run_pinned_witnesses(ctx):
 # discovery
 # ---------------------------------------------------------------------------------------------
 BAD_ADDR = 9
+SCAN_WATCHDOG_S = 3          # a scan of a handful of datagrams takes milliseconds (virtual time)
+STUCK_SCANS = []
 
 
 def hostile_payloads(rng):
@@ -920,10 +945,11 @@ def real_scan(desc):
             case.wire[i] = bytes.fromhex(d["raw"])
     order = list(range(len(desc["dgrams"])))
     old = signal.signal(signal.SIGALRM, _on_alarm)
-    signal.setitimer(signal.ITIMER_REAL, 20)
+    signal.setitimer(signal.ITIMER_REAL, SCAN_WATCHDOG_S)
     try:
         res, shown = case.real(order)
     except Hang:
+        STUCK_SCANS.append(1)
         res, shown = {"error": "Hang", "configs": [], "responses": [], "services": None}, {"resp": None, "raw": None, "snap": "error:Hang"}
     finally:
         signal.setitimer(signal.ITIMER_REAL, 0)
@@ -947,6 +973,7 @@ def snapshot(res, only=None):
 
 
 def run_discovery(ctx):
+    del STUCK_SCANS[:]
     rng = ctx.rng.fork("discovery")
     payloads = hostile_payloads(rng)
     lines, pending = [], []
@@ -956,6 +983,9 @@ def run_discovery(ctx):
             for rep in range(reps):
                 devs = good_devices(rng.fork(mode, ndev, rep), ndev)
                 for payload in payloads:
+                    if len(STUCK_SCANS) >= 3:
+                        ctx.note("discovery-skipped-after-hangs")
+                        continue
                     crng = rng.fork(mode, ndev, rep, payload[0])
                     desc, good = build_case(crng, mode, devs, payload)
                     _, _, ref, _ = real_scan(good)
@@ -973,7 +1003,7 @@ def run_discovery(ctx):
                     if isinstance(want, str) or not want:
                         ctx.disagree(small, want, "reference scan of the good devices returns them", where="generator")
                     if got != want:
-                        ctx.fail("discovery:%s:hostile-host-changes-result" % mode, small, repr(got)[:700], repr(want)[:700],
+                        ctx.fail("discovery:%s:%s:hostile-host-changes-result" % (mode, payload[0]), small, repr(got)[:700], repr(want)[:700],
                                  "configurations of the well-formed devices differ from the scan without the hostile host "
                                  "(%s)" % payload[0])
                     # correspondence with the model (garbage datagrams: multicast = empty datagram, unicast = dropped)
@@ -1012,6 +1042,9 @@ def run(ctx):
         strip = {"companion": lambda s: " ".join(s.split(" ")[1:])}      # frames are not observable for Companion
         bench.finish(strip)
         run_pinned_witnesses(ctx)
+    except Hang:
+        ctx.fail("watchdog:decoder-run-exceeded-wall-clock", {"watchdog_s": WATCHDOG_S}, "Hang", "all decoder runs finish",
+                 "a decode call blocked outside traced Python code (wall-clock watchdog)")
     finally:
         signal.setitimer(signal.ITIMER_REAL, 0)
         signal.signal(signal.SIGALRM, old)
@@ -1030,16 +1063,25 @@ def replay(ctx, failure):
         _, _, res, _ = real_scan(desc)
         addrs = {"10.0.0.%d" % d["src"] for d in good["dgrams"]}
         return snapshot(res, only=addrs) != snapshot(ref)
+    if sig.startswith("watchdog:"):
+        return True
     D = Decoders()
     dec = case["decoder"]
     inp = case["input"]
-    data = bytes.fromhex(inp[0] if isinstance(inp, list) else inp) if (inp if isinstance(inp, str) else inp[0]) != "-" else b""
+    text = inp[0] if isinstance(inp, list) else inp
+    try:
+        data = b"" if text == "-" else bytes.fromhex(text)
+    except ValueError:
+        return True                                   # descriptive inputs (deep TLV …): re-run the check
+    from pyatv.protocols.dmap import tag_definitions
+    base = dec.replace("-negative-length", "")
     fn = {"name": lambda: D.name(data, inp[1]), "dns": lambda: D.dnsmsg(data), "tlv": lambda: D.tlv(data),
           "var": lambda: D.var(data), "mrp": lambda: D.mrp(data), "companion": lambda: D.companion(data),
           "hap": lambda: D.hap(data), "data": lambda: D.data(data), "data-real-payload": lambda: D.data(data, False),
           "event": lambda: D.event(data), "server": lambda: D.server(data), "http": lambda: D.httpc(data),
-          "pb": lambda: D.pb(data), "opack": lambda: D.opack_(data),
-          "flags": lambda: D.flags(data.decode())}.get(dec)
+          "pb": lambda: D.pb(data), "pb-real-protobuf": lambda: D.pb(data, False), "opack": lambda: D.opack_(data),
+          "dmap": lambda: D.dmap(data, tag_definitions.lookup_tag),
+          "flags": lambda: D.flags(data.decode())}.get(base)
     if fn is None:
         return True
     _, r, _ = fn()
